@@ -43,6 +43,9 @@ theorem argOKB_sound (a : Arg) (h : argOKB a = true) : argOK a := by
     cases a with
     | none => intro n hn; simp at hn
     | some n => intro m hm; simp at hm; subst hm; simpa [argOKB] using h
+  | tyvals ixs =>
+    simp only [argOKB, List.all_eq_true] at h
+    intro p hp; exact operandOKB_sound _ (h p hp)
 
 theorem matchesB_sound : ∀ (fs : List Slot) (as : List Arg), matchesB fs as = true → Matches fs as
   | [], [], _ => .nil
@@ -80,6 +83,10 @@ theorem matchesB_sound : ∀ (fs : List Slot) (as : List Arg), matchesB fs as = 
     cases as with
     | nil => simp [matchesB] at h
     | cons a as => cases a <;> first | exact .align _ (matchesB_sound fs as (by simpa [matchesB] using h)) | simp [matchesB] at h
+  | .tyvals :: fs, as, h => by
+    cases as with
+    | nil => simp [matchesB] at h
+    | cons a as => cases a <;> first | exact .tyvals _ (matchesB_sound fs as (by simpa [matchesB] using h)) | simp [matchesB] at h
 
 theorem instOKB_sound (i : Inst) (h : instOKB i = true) : instOK i := by
   unfold instOKB at h
@@ -121,6 +128,10 @@ theorem hasDupI_false_iff_nodup : ∀ (l : List Ident), hasDupI l = false ↔ l.
     · rintro ⟨h1, h2⟩; exact ⟨by simpa using h1, h2⟩
     · rintro ⟨h1, h2⟩; exact ⟨by simpa using h1, h2⟩
 
+theorem map_id_of_forall {α : Type} (g : α → α) : ∀ (l : List α), (∀ x ∈ l, g x = x) → l.map g = l
+  | [], _ => rfl
+  | x :: xs, h => by simp [h x (by simp), map_id_of_forall g xs (fun y hy => h y (by simp [hy]))]
+
 theorem retypeArg_id (e : List (Ident × Ty)) (a : Arg) (h : consistentArg e a = true) : retypeArg e a = a := by
   cases a with
   | ty t => rfl
@@ -129,6 +140,25 @@ theorem retypeArg_id (e : List (Ident × Ty)) (a : Arg) (h : consistentArg e a =
   | phis incs => rfl
   | nums ks => rfl
   | align a => rfl
+  | tyvals ixs =>
+    simp only [consistentArg, List.all_eq_true] at h
+    simp only [retypeArg]
+    congr 1
+    apply map_id_of_forall
+    intro p hp
+    obtain ⟨t, o⟩ := p
+    cases o with
+    | const c => rfl
+    | loc i =>
+      have hh := h (t, .loc i) hp
+      simp only at hh
+      simp only [retypeOperand]
+      cases hl : lookup e i with
+      | none => simp
+      | some t' =>
+        rw [hl] at hh
+        have := (Props.C16.equal_iff_eq t' t).mp hh
+        simp [this]
   | tyval t o =>
     cases o with
     | const c => rfl
@@ -157,10 +187,6 @@ theorem retypeArg_id (e : List (Ident × Ty)) (a : Arg) (h : consistentArg e a =
           rw [hl] at h
           have := (Props.C16.equal_iff_eq t' t).mp h
           simp [this]
-
-theorem map_id_of_forall {α : Type} (g : α → α) : ∀ (l : List α), (∀ x ∈ l, g x = x) → l.map g = l
-  | [], _ => rfl
-  | x :: xs, h => by simp [h x (by simp), map_id_of_forall g xs (fun y hy => h y (by simp [hy]))]
 
 theorem retypeInst_id (e : List (Ident × Ty)) (i : Inst) (h : i.args.all (consistentArg e) = true) : retypeInst e i = i := by
   unfold retypeInst
